@@ -48,10 +48,14 @@ def _board_work(shard):
     return out
 
 
+KF = {"KF-C04-1": "reward analogue: an exact tie between conditioned expected rewards is lost because round(x, 6) separates the two floating-point "
+                  "evaluations (values on a rounding boundary such as 0.0000225, or rewards of 1e10 whose float error exceeds 1e-6)"}
+
+
 def run(ctx):
     from .. import boards
     from ..inputs import board_games
-    rep = sweep.run_plan(ctx, PROP, plan(ctx), RULE, ASSUME, vacuity=_vacuity)
+    rep = sweep.run_plan(ctx, PROP, plan(ctx), RULE, ASSUME, kf_what=KF, vacuity=_vacuity)
     cpu = 60.0 if ctx.thorough else 3.0
     shards = [("file", (f, nme), cpu) for f, nme, g in board_games(4100 if ctx.thorough else 260)]
     shards += [("gen", b, cpu) for b in boards.board_list(ctx.thorough, ctx.seed)]
